@@ -537,6 +537,9 @@ def generate():
     from .translate_spl import generate_spl
 
     status.update(generate_spl(gen))
+    from .translate_xr2 import generate_xr2
+
+    status.update(generate_xr2(gen))
     return status
 
 
